@@ -45,6 +45,10 @@ type Ctx struct {
 	// failureRet: for a linked helper whose last result is an error and that
 	// has exactly one return with a non-nil error, that return.
 	failureRet map[*ast.CallExpr]*ast.ReturnStmt
+	// searchRet: for a linked helper with a single int result that returns a
+	// position when it finds something and the constant -1 otherwise, the one
+	// return that reports a find.
+	searchRet map[*ast.CallExpr]*ast.ReturnStmt
 	requested  map[string]bool
 	idx        map[*packages.Package]*pkgIndex
 
@@ -72,7 +76,7 @@ func loadCtx(repo, tier string, extraEnv []string, buildFlags []string) (*Ctx, e
 		return nil, fmt.Errorf("packages.Load: %v", err)
 	}
 	c := &Ctx{Repo: repo, Tier: tier, funcs: map[string]*FuncInfo{}, LoadEnv: extraEnv, LoadFlags: buildFlags, FileSet: map[string][]string{},
-		linked: map[*ast.CallExpr]*FuncInfo{}, linkedTo: map[*FuncInfo]*ast.CallExpr{}, successRet: map[*ast.CallExpr]*ast.ReturnStmt{}, failureRet: map[*ast.CallExpr]*ast.ReturnStmt{}, requested: map[string]bool{}, idx: map[*packages.Package]*pkgIndex{}}
+		linked: map[*ast.CallExpr]*FuncInfo{}, linkedTo: map[*FuncInfo]*ast.CallExpr{}, successRet: map[*ast.CallExpr]*ast.ReturnStmt{}, failureRet: map[*ast.CallExpr]*ast.ReturnStmt{}, searchRet: map[*ast.CallExpr]*ast.ReturnStmt{}, requested: map[string]bool{}, idx: map[*packages.Package]*pkgIndex{}}
 	for _, p := range pkgs {
 		if len(p.Errors) > 0 {
 			return nil, fmt.Errorf("package %s has errors: %v", p.PkgPath, p.Errors[0])
@@ -240,6 +244,30 @@ func (c *Ctx) link(anchors map[string]bool) {
 		// results: `a, b, ok := h(x)` where h has exactly one return that reports success —
 		// a and b are then defined by that return's operands, and a passed test of ok
 		// carries the conditions under which that return is reached (Guards)
+		if sig.Results().Len() == 1 && types.TypeString(sig.Results().At(0).Type(), nil) == "int" {
+			var found *ast.ReturnStmt
+			okS, misses := true, 0
+			for _, rt := range h.returnsOf() {
+				if len(rt.Results) != 1 {
+					okS = false
+					break
+				}
+				if k, isC := h.constInt(rt.Results[0]); isC {
+					if k != -1 {
+						okS = false
+					}
+					misses++
+					continue
+				}
+				if found != nil {
+					okS = false
+				}
+				found = rt
+			}
+			if okS && found != nil && misses > 0 {
+				c.searchRet[s.call] = found
+			}
+		}
 		if nres := sig.Results().Len(); nres >= 1 && isErrorType(sig.Results().At(nres-1).Type()) {
 			if F := uniqueFailureReturn(h, nres); F != nil {
 				c.failureRet[s.call] = F
